@@ -1,7 +1,7 @@
 (* RunC03Proof.v — the opcode numbers the SSA-listing decoder of RunC03.v uses
    are the values of ssa.Operand regenerated from instructions.go. *)
 From Coq Require Import ZArith List Bool.
-From Mpc Require Import Gen.Consts Lang.Ssa Lang.RunC03.
+From Mpc Require Import Gen.Consts Base.Sx Lang.Ssa Lang.RunC03.
 Import ListNotations.
 
 Lemma opcode_enum_ok :
@@ -24,3 +24,18 @@ Lemma opcode_enum_ok :
      Oconcat; Obts; Obtc; Ounsupported; Ohamming;
      Ounsupported; Ounsupported].
 Proof. vm_compute. reflexivity. Qed.
+
+(* circ: the decoder builds the Ocirc term from the exported instr.Circ; the gate
+   operations are decoded by the circuit.Operation values regenerated from
+   circuit/circuit.go *)
+Lemma circ_decode_ok :
+  (forall s, Base.Sx.getZ (Base.Sx.nthx 0 s) = compiler_ssa_Circ ->
+     i_op (dec_instr s)
+     = Ocirc (Base.Sx.getLnat (Base.Sx.nthx 5 s)) (dec_circuit (Base.Sx.nthx 6 s) (Base.Sx.nthx 7 s))) /\
+  map cop_of_Z [circuit_XOR; circuit_XNOR; circuit_AND; circuit_OR; circuit_INV]
+  = [Mpc.Circuit.Circuit.XOR; Mpc.Circuit.Circuit.XNOR; Mpc.Circuit.Circuit.AND;
+     Mpc.Circuit.Circuit.OR; Mpc.Circuit.Circuit.INV].
+Proof.
+  split; [|vm_compute; reflexivity].
+  intros s H. unfold dec_instr. cbn [i_op]. rewrite H, Z.eqb_refl. reflexivity.
+Qed.
